@@ -42,11 +42,12 @@ Theorem ptrptr_null_refuted :
   std_unmarshal opts_std (TPtr (TPtr TUnm)) (b "null") VNil = Ok VNil.
 Proof. split; vm_compute; reflexivity. Qed.
 
-(* map[uint32]: 2^32 wraps to key 0 *)
-Theorem u32_map_key_refuted :
-  sonic_unmarshal h1 Jit opts_std (TMap (KInt U32) (TInt I64)) (b "{""4294967296"":1}") VNil = Ok (VMap [(VInt 0, VInt 1)]) /\
-  std_unmarshal opts_std (TMap (KInt U32) (TInt I64)) (b "{""4294967296"":1}") VNil = Err.
-Proof. split; vm_compute; reflexivity. Qed.
+(* map[uint32]: 2^32 is rejected by both (repaired by afd5482; before, sonic stored key 0) *)
+Theorem u32_map_key_agree :
+  sonic_unmarshal h1 Jit opts_std (TMap (KInt U32) (TInt I64)) (b "{""4294967296"":1}") VNil = Err /\
+  std_unmarshal opts_std (TMap (KInt U32) (TInt I64)) (b "{""4294967296"":1}") VNil = Err /\
+  sonic_unmarshal h1 Jit opts_std (TMap (KInt U32) (TInt I64)) (b "{""4294967295"":1}") VNil = Ok (VMap [(VInt 4294967295, VInt 1)]).
+Proof. repeat split; vm_compute; reflexivity. Qed.
 
 (* `,string` on a string: a control character produced by the first unquoting is accepted *)
 Theorem quoted_string_refuted :
